@@ -125,6 +125,21 @@ func (c *Client) Execute(input schema.Input, toStep <-chan schema.Input, fromSte
 			}
 		})
 	}
+	if k := c.conn.Script.Run; k == RunBadOutputID || k == RunBadOutputData {
+		// the real client hands over whatever the plugin sent; the SDK's server side would not let these
+		// through, a plugin written without it can
+		vrt.PreClose("env/client.exec.stop", stop)
+		close(stop)
+		if w != nil {
+			w.Running[group]--
+		}
+		if k == RunBadOutputID {
+			Log("exec-end", c.conn.Key, input.RunID, c.conn.ID_, "nosuchoutput", nil)
+			return atp.ExecutionResult{OutputID: "nosuchoutput", OutputData: map[any]any{}}
+		}
+		Log("exec-end", c.conn.Key, input.RunID, c.conn.ID_, "success", "ill-typed")
+		return atp.ExecutionResult{OutputID: "success", OutputData: map[any]any{"v": "not a number", "unexpected": []any{uint64(1)}}}
+	}
 	outputID, outputData, callErr := c.schema.CallStep(context.Background(), input.RunID, input.ID, wired)
 	vrt.PreClose("env/client.exec.stop", stop)
 	close(stop)
